@@ -1082,6 +1082,7 @@ func c08(c *h.Ctx) {
 	c08Rtmp(c)
 	c08Handshake(c)
 	c08Flv(c)
+	c08Extra(c)
 	keys := make([]string, 0, len(c08Runs))
 	for k := range c08Runs {
 		keys = append(keys, k)
